@@ -1,7 +1,7 @@
 CONSTANTS
   Source = "tables"
   Scale = "full"
-  Reader = "asis"
+  Reader = "repaired"
 INIT Init
 NEXT Next
 INVARIANT EmitTables
